@@ -116,7 +116,7 @@ func mRoundTrip(k int, b []byte) {
 	}
 }
 
-//verif:props=C03,C04,C09 bounds=VScalars2;all-byte-strings<=3(quick)/5(thorough) maxsteps=8000000
+//verif:props=C03,C09 bounds=VScalars2;all-byte-strings<=3(quick)/5(thorough) maxsteps=8000000
 func H_M2_scalars2() {
 	N := 3
 	if nd.Thorough() {
@@ -125,7 +125,7 @@ func H_M2_scalars2() {
 	mRoundTrip(0, nd.Bytes(N))
 }
 
-//verif:props=C03,C04,C09,C11 bounds=VScalars3;all-byte-strings<=3(quick)/5(thorough) maxsteps=8000000
+//verif:props=C03,C13 bounds=VScalars3;all-byte-strings<=3(quick)/5(thorough) maxsteps=8000000
 func H_M2_scalars3() {
 	N := 3
 	if nd.Thorough() {
@@ -135,7 +135,7 @@ func H_M2_scalars3() {
 	mRoundTrip(1, b)
 }
 
-//verif:props=C03,C04,C09 bounds=VRepeats;all-byte-strings<=3(quick)/5(thorough) maxsteps=8000000
+//verif:props=C03 bounds=VRepeats;all-byte-strings<=3(quick)/5(thorough) maxsteps=8000000
 func H_M2_repeats() {
 	N := 3
 	if nd.Thorough() {
@@ -144,7 +144,7 @@ func H_M2_repeats() {
 	mRoundTrip(2, nd.Bytes(N))
 }
 
-//verif:props=C03,C04,C09 bounds=VNests;all-byte-strings<=4(quick)/5(thorough) maxsteps=8000000
+//verif:props=C03,C09 bounds=VNests;all-byte-strings<=4(quick)/5(thorough) maxsteps=8000000
 func H_M2_nests() {
 	N := 4
 	if nd.Thorough() {
@@ -153,7 +153,7 @@ func H_M2_nests() {
 	mRoundTrip(3, nd.Bytes(N))
 }
 
-//verif:props=C03,C04,C09 bounds=VReqOuter;all-byte-strings<=4(quick)/5(thorough) maxsteps=8000000
+//verif:props=C04,C09 bounds=VReqOuter;all-byte-strings<=4(quick)/5(thorough) maxsteps=8000000
 func H_M2_reqouter() {
 	N := 4
 	if nd.Thorough() {
@@ -165,10 +165,10 @@ func H_M2_reqouter() {
 //verif:props=C03,C04 bounds=VScalars2;tag-byte+complete-payload-of-every-wire-type maxsteps=8000000
 func H_M2_field_scalars2() { mRoundTrip(0, mOneFieldBytes(0)) }
 
-//verif:props=C03,C04,C11 bounds=VScalars3;tag-byte+complete-payload-of-every-wire-type maxsteps=8000000
+//verif:props=C04,C13 bounds=VScalars3;tag-byte+complete-payload-of-every-wire-type maxsteps=8000000
 func H_M2_field_scalars3() { mRoundTrip(1, mOneFieldBytes(0)) }
 
-//verif:props=C03,C04 bounds=VRepeats;tag-byte+complete-payload-of-every-wire-type maxsteps=8000000
+//verif:props=C04 bounds=VRepeats;tag-byte+complete-payload-of-every-wire-type maxsteps=8000000
 func H_M2_field_repeats() { mRoundTrip(2, mOneFieldBytes(0)) }
 
 // H_M2_implicit_zero: an implicit-presence (proto3) scalar holding its zero value is never
